@@ -1045,7 +1045,9 @@ func prewriteMutation(db *leveldb.DB, batch *leveldb.Batch,
 			// The minCommitTS has been pushed forward.
 			minCommitTS = dec.lock.minCommitTS
 		}
-		_, err = checkConflictValue(iter, mutation, startTS, startTS, false, assertionLevel, false, false)
+		// The key is protected by the transaction's own pessimistic lock: as in TiKV, write
+		// conflicts are not checked again (commits between start_ts and for_update_ts are expected).
+		_, err = checkConflictValue(iter, mutation, math.MaxUint64, startTS, false, assertionLevel, false, false)
 		if err != nil {
 			return err
 		}
